@@ -24,7 +24,7 @@ func init() {
 				Flavours: []string{"plain", "cover", "386"},
 				Blocks:   16,
 				Procs:    16,
-				Rule: "large sets (0..3000 elements per side in every size relation, 0..1000 shared elements incl. 31..34, 63..66, 127..129, 255..257) against Go maps for all binary operations, long variadic lists, Intersect, Clone, Slice, Append; exhaustive over a universe of 5 elements: every (receiver, argument) pair of the 34 operands {nil, empty non-nil, 32 subsets incl. a second empty} for Intersects/IsSubset/Equals/AddAll/RemoveAll; every receiver x every argument list of length <= 3 (<= 4 thorough) with repetitions for HasAll/HasAny/Add/Remove/New; every 0..3-operand combination and random 4..40-operand combinations for Intersect, and two different operands tied for the smallest size at every pair of positions among 2..24 operands; Append into prefixes with every amount of spare capacity from 0 to len+6; Clone/Keys/Values/Range/NewSize/Slice/Append/Pop/Clear/IsEmpty/Len/Has on every operand; results checked for value, non-nilness and non-aliasing (mutating the result must not change an argument and vice versa). " +
+				Rule: "large sets (0..3000 elements per side in every size relation, 0..1000 shared elements incl. 31..34, 63..66, 127..129, 255..257) against Go maps for all binary operations, long variadic lists, Intersect, Clone, Slice, Append; exhaustive over a universe of 5 elements: every (receiver, argument) pair of the 34 operands {nil, empty non-nil, 32 subsets incl. a second empty} for Intersects/IsSubset/Equals/AddAll/RemoveAll; every receiver x every argument list of length <= 3 (<= 4 thorough) with repetitions for HasAll/HasAny/Add/Remove/New; every 0..3-operand combination and random 4..40-operand combinations for Intersect, and two different operands tied for the smallest size at every pair of positions among 2..24 operands; Append into prefixes with every amount of spare capacity from 0 to len+6; Clone/Keys/Values/Range/NewSize/Slice/Append/Pop/Clear/IsEmpty/Len/Has on every operand; every mutator (Add, AddAll, Remove, RemoveAll, Pop, Clear) also observed through a copy of the Set value made beforehand (a Set is a map: the copy must show the change); results checked for value, non-nilness and non-aliasing (mutating the result must not change an argument and vice versa). " +
 					"Histories of Add/AddAll/Remove/RemoveAll/Pop/Clear over two sets (the second used as argument of the first), starting from nil or non-nil, with membership and Len of BOTH sets after every step. distinct = enumerated operand tuples, histories by hash; non-trivial = at least one operand is non-empty",
 				Required:     []string{"binary_predicate_pairs", "variadic_cases", "variadic_with_duplicates", "intersect_cases", "aliasing_checks", "pop_checks", "history_steps", "nil_receiver_cases", "intersect_many_operands", "append_spare_capacity_cases", "second_handle_checks", "large_set_cases", "length_sweep_cases", "intersect_tied_smallest_operands"},
 				Exhaustive:   true,
@@ -139,9 +139,16 @@ func (m c18mon) binary(i, j int) {
 	{
 		r, _ := c18mk(i)
 		a, _ := c18mk(j)
+		h := r // a second handle to the receiver (a Set is a map): it must see what AddAll adds to a non-nil set
 		ret := r.AddAll(a)
 		if !sameAs(r, sm|tm) || !sameAs(ret, sm|tm) || !sameAs(a, tm) {
 			m.fail(data, "AddAll: receiver %v returned %v argument %v, want union %05b and the argument unchanged", r, ret, a, sm|tm)
+		}
+		if h != nil {
+			c.Add("second_handle_checks", 1)
+			if !sameAs(h, sm|tm) {
+				m.fail(data, "AddAll on a non-nil set: a copy of the Set value made before the call shows %v afterwards, the receiver %v", h, r)
+			}
 		}
 		{ // (a receiver left nil is an empty set; the statement does not require AddAll to allocate)
 			// independence: later changes to the receiver must not show in the argument and vice versa
@@ -165,9 +172,16 @@ func (m c18mon) binary(i, j int) {
 	{
 		r, _ := c18mk(i)
 		a, _ := c18mk(j)
+		h := r
 		ret := r.RemoveAll(a)
 		if !sameAs(r, sm&^tm) || !sameAs(ret, sm&^tm) || !sameAs(a, tm) {
 			m.fail(data, "RemoveAll: receiver %v returned %v argument %v, want difference %05b", r, ret, a, sm&^tm)
+		}
+		if h != nil {
+			c.Add("second_handle_checks", 1)
+			if !sameAs(h, sm&^tm) {
+				m.fail(data, "RemoveAll: a copy of the Set value made before the call shows %v afterwards, the receiver %v", h, r)
+			}
 		}
 	}
 	c.Step()
@@ -241,16 +255,24 @@ func (m c18mon) variadic(i int, ts []int) {
 	}
 	{
 		r, _ := c18mk(i)
+		h := r
 		ret := r.Add(ts...)
 		if !sameAs(r, sm|lm) || !sameAs(ret, sm|lm) {
 			m.fail(data, "Add: receiver %v returned %v want %05b", r, ret, sm|lm)
 		}
+		if h != nil && !sameAs(h, sm|lm) {
+			m.fail(data, "Add: a copy of the Set value made before the call shows %v afterwards, the receiver %v", h, r)
+		}
 	}
 	{
 		r, _ := c18mk(i)
+		h := r
 		ret := r.Remove(ts...)
 		if !sameAs(r, sm&^lm) || !sameAs(ret, sm&^lm) {
 			m.fail(data, "Remove: receiver %v returned %v want %05b", r, ret, sm&^lm)
+		}
+		if h != nil && !sameAs(h, sm&^lm) {
+			m.fail(data, "Remove: a copy of the Set value made before the call shows %v afterwards, the receiver %v", h, r)
 		}
 	}
 	if i == 0 {
@@ -674,10 +696,23 @@ func runC18(c *fw.Ctx) {
 		var log opLog
 		bad := false
 		h := fw.NewH()
+		// second handles: copies of the Set values, taken as soon as each set is
+		// non-nil; a Set is a map, so they must show every later change
+		var hA, hB mapset.Set[int]
 		check := func() {
 			if !sameAs(A, am) || !sameAs(B, bm) {
 				c.Fail(map[string]any{"ops": log.list()}, "after %d ops: A=%v want %05b, B=%v want %05b", len(log.ops), A, am, B, bm)
 				bad = true
+			}
+			if (hA != nil && !sameAs(hA, am)) || (hB != nil && !sameAs(hB, bm)) {
+				c.Fail(map[string]any{"ops": log.list()}, "after %d ops: copies of the Set values made when the sets came into being show A=%v B=%v, the variables operated on A=%v B=%v", len(log.ops), hA, hB, A, B)
+				bad = true
+			}
+			if hA == nil {
+				hA = A
+			}
+			if hB == nil {
+				hB = B
 			}
 		}
 		steps := 10 + r.IntN(50)
@@ -732,6 +767,11 @@ func runC18(c *fw.Ctx) {
 				log.add("%s = %s.Clone()", xn, yn)
 				*X = Y.Clone()
 				*xm = *ym
+				if X == &A { // the variable now names another set: its second handle is taken anew
+					hA = nil
+				} else {
+					hB = nil
+				}
 			}
 			c.Step()
 			c.Add("history_steps", 1)
